@@ -48,6 +48,8 @@ struct ResState {
   /// order in which gated handler futures completed in the current phase
   completions: Vec<String>,
   dropped_while_parked: u64,
+  /// DIDs whose handler never completes in the current phase (the driver never opens their gate)
+  hung: BTreeSet<String>,
 }
 
 thread_local! {
@@ -443,7 +445,18 @@ fn drive<'a, T: 'a>(
       );
       return None;
     }
-    let parked: Vec<(String, u64)> = st(|s| s.parked.keys().cloned().collect());
+    let parked: Vec<(String, u64)> = st(|s| s.parked.keys().filter(|k| !s.hung.contains(&k.0)).cloned().collect());
+    if parked.is_empty() && st(|s| !s.hung.is_empty()) {
+      // every handler that will ever complete has completed - one of them with an error - and the root is still
+      // pending: the failure is being held back until a handler returns that never will
+      ctx::violation(
+        prop,
+        "C20.fails_if_any_fails",
+        format!("{phase}/failure-held-back-by-a-handler-that-never-completes"),
+        "one handler has failed, the only handler still pending never completes, and resolve_multiple does not return the failure",
+      );
+      return None;
+    }
     if parked.is_empty() {
       // nothing parked, root not woken (drained), root not done → lost wake-up
       ctx::violation(
@@ -459,7 +472,7 @@ fn drive<'a, T: 'a>(
         // open 1..3 gate stages before the root runs again (several handlers may complete in the same round)
         let batch = 1 + ctx::weighted(&[6, 2, 1]);
         for _ in 0..batch {
-          let parked_now: Vec<(String, u64)> = st(|s| s.parked.keys().cloned().collect());
+          let parked_now: Vec<(String, u64)> = st(|s| s.parked.keys().filter(|k| !s.hung.contains(&k.0)).cloned().collect());
           if parked_now.is_empty() {
             break;
           }
@@ -558,6 +571,7 @@ impl Engine for ResEngine {
       "probe.handlers_replaced_before_use".to_owned(),
       "probe.wide_list".to_owned(),
       "probe.did_text_with_blank_around".to_owned(),
+      "fault.handler_never_completes".to_owned(),
     ];
     if tier == "thorough" {
       v.push("cover:perm4>=24".to_owned());
@@ -1083,6 +1097,54 @@ impl Engine for ResEngine {
           ctx::trace(format!("blank-around did text accepted, method {:?}", did.method()));
         }
       }
+    }
+    // ---- phase 6: a handler that never completes (fault: a resolution that hangs) next to one that fails ----
+    // "fails if any one of them fails": the failure is reported although another handler is still pending - for ever.
+    if ctx::choose(8) == 0 {
+      let m = methods[ctx::choose(methods.len())];
+      let hung = format!("did:{m}:hangs");
+      let bad = format!("did:{m}:fails");
+      let good = format!("did:{m}:fine");
+      let mut list6: Vec<String> = vec![hung.clone(), bad.clone()];
+      if ctx::choose(2) == 0 {
+        list6.push(good.clone());
+      }
+      // (the order of the list is drawn as well)
+      let k = ctx::choose(list6.len());
+      list6.rotate_left(k);
+      st(|s| {
+        s.open.clear();
+        s.parked.clear();
+        s.invocations.clear();
+        s.completions.clear();
+        s.plans.insert(hung.clone(), Plan { stages: 1, ok: true, nonce: 1 });
+        s.plans.insert(bad.clone(), Plan { stages: 1 + ctx::choose(2), ok: false, nonce: 2 });
+        s.plans.insert(good.clone(), Plan { stages: ctx::choose(3), ok: true, nonce: 3 });
+        s.hung.insert(hung.clone());
+      });
+      ctx::stat("fault.handler_never_completes");
+      ctx::sched("hung", list6.len() as u64 * 8 + k as u64);
+      let dids6: Vec<CoreDID> = list6.iter().map(|d| CoreDID::parse(d).expect("valid")).collect();
+      let out: RefCell<Option<Result<HashMap<CoreDID, CoreDocument>, identity_resolver::Error>>> = RefCell::new(None);
+      let polls = match &resolver {
+        ResolverKind::SendSync(r) => drive(prop, "hung", r.resolve_multiple(&dids6), &out, false),
+        ResolverKind::Single(r) => drive(prop, "hung", r.resolve_multiple(&dids6), &out, false),
+      };
+      st(|s| s.hung.clear());
+      if polls.is_none() {
+        return;
+      }
+      match out.into_inner() {
+        Some(Err(e)) => {
+          let got = classify_err(&e);
+          if got != Expect::HandlerError(format!("planned failure for {bad}")) {
+            ctx::violation(prop, "C20.fails_if_any_fails", "hung/error-of-no-failing-did", format!("error {got:?} is not the failure of {bad}"));
+          }
+        }
+        Some(Ok(_)) => ctx::violation(prop, "C20.fails_if_any_fails", "hung/ok-despite-failure", format!("resolve_multiple returned Ok although {bad} fails")),
+        None => {}
+      }
+      ctx::trace("hung handler next to a failing one".to_owned());
     }
     if gated_in_flight >= 2 {
       ctx::mark_nontrivial();
